@@ -1,5 +1,6 @@
 """Shared machinery of the Reg family (C17 registry, C43 accessors, C10 bytes variants)."""
 import random
+import re
 import shutil
 import threading
 from concurrent.futures import ThreadPoolExecutor
@@ -179,6 +180,7 @@ class Family:
         self.stats = {}
         self.kinds = {}
         self.distinct = set()
+        self.not_compiling = []
         with Lock():
             self.cres = run_genconsts()
             self.thm = check_theorems(props)
@@ -212,11 +214,31 @@ class Family:
         if u.kernel_rejected:
             self.add(kernel_rejected=1)
             return False
+        if (u.error or "").startswith("go build") and "\ngen/" in u.error and "\ndrv/" not in u.error:
+            # the GENERATED package does not compile (e.g. F11g): a defect of the generator owned by C14, nothing to drive here
+            self.add(units_whose_generated_code_does_not_compile_left_to_C14=1)
+            with self.lock:
+                self.not_compiling.append(f"{u.name}: " + trunc(re.sub(r"\x1b\[[0-9;]*m", "", u.error[u.error.find("\ngen/"):]).strip(), 200))
+            return False
         if u.error or not u.gen:
             with self.lock:
                 self.unit_errors.append((u.name, u.error))
             return False
         return self.ref is not None
+
+    def model_resilient(self, u, lines, timeout=900):
+        """like model(), but a line the driver dies on (native stack overflow on a huge value) yields 'crash ...'"""
+        return run_lines_resilient(self.ref, [str(u.ir_path), str(u.meta_path)], lines, timeout=timeout)
+
+    @staticmethod
+    def not_ours(m, g):
+        """stack overflows of the generated code (recursive types: F7 / F39 / F21, owned by C18 / C08) and of the
+        extracted model on huge values are not this family's property: such lines are counted, not compared"""
+        if g.startswith(("crash runtime: goroutine stack exceeds", "crash fatal error: stack overflow", "crash timeout")):
+            return "go_stack_overflows_left_to_C08_C18"
+        if m.startswith(("crash", "model-stack-overflow")):
+            return "model_driver_crashes_skipped"
+        return None
 
     def compare(self, u, lines, mo, go, kind):
         """line-by-line correspondence; returns number of mismatches"""
@@ -227,6 +249,10 @@ class Family:
             return 1
         with self.lock:
             for l, m, g in zip(lines, mo, go):
+                other = self.not_ours(m, g)
+                if other:
+                    self.stats[other] = self.stats.get(other, 0) + 1
+                    continue
                 if m != g:
                     self.mism.append((u.name, l, m, g))
                     n += 1
@@ -293,6 +319,7 @@ class Family:
             "rule": rule, "stats": self.stats, "op_kinds": self.kinds, "correspondence": self.corr,
             "correspondence_mismatches": len(self.mism), "oracle_failures": len(self.bad),
             "samples": self.samples or [{"note": "no ops ran"}],
+            "units_not_compiling_left_to_C14": self.not_compiling[:20],
             "schemas": [{"name": u.name, "options": u.options, "instances": len(u.ins or []), "error": trunc(u.error, 200) if u.error else None} for u in self.units],
         }
         cov.update(extra_cov or {})
